@@ -94,6 +94,12 @@ fn add_exec(a: &mut ExecStats, b: &ExecStats) {
     a.refused_after_error += b.refused_after_error;
     a.steps_skipped += b.steps_skipped;
     a.deep_checks += b.deep_checks;
+    a.syncs_decoded += b.syncs_decoded;
+    a.pages_protected += b.pages_protected;
+    a.secondary_selected_at_sync += b.secondary_selected_at_sync;
+    a.decoder_max_depth = a.decoder_max_depth.max(b.decoder_max_depth);
+    a.multimap_subtrees_seen += b.multimap_subtrees_seen;
+    a.ownership_audits += b.ownership_audits;
 }
 
 fn add_disk(a: &mut crate::disk::Stats, b: &crate::disk::Stats) {
